@@ -699,6 +699,7 @@ theorem step_inv {g : Bool} (cfg : Cfg) {s : State V} {op : Op V} (hs : Inv g s)
       · have h := runScript_inv cfg (some h) script hs (sess := .back b) (hs.handles _ _ hb) hg
         exact inv_storeKept _ h.1 h.2
   | snap => exact hs
+  | topo away sts => exact ⟨hs.fronts, hs.handles⟩
   | pMkf c =>
     simp only [step]
     split
@@ -976,6 +977,7 @@ theorem step_replay (cfg : Cfg) (s : State V) (op : Op V) (c : Conn) :
       · simp
       · rw [storeKept_fronts]; exact runScript_replay _ _ _ _ _ _
   | snap => simp [step]
+  | topo away sts => simp [step]
   | pMkf c0 =>
     simp only [step]
     split
